@@ -255,6 +255,28 @@ def run_shard(spec):
                 break
             tree = A.merge(dv.target.bindings)
             plain = A.to_plain(tree)
+            # ---- mixed entry points: now and then the document is edited through nima's own
+            # set / rm (scope layers and body) between mapping operations; the mapping laws are
+            # then checked on the state this leaves behind
+            if rng.random() < 0.07:
+                from nix_manipulator.cli.manipulations import remove_value, set_value
+                lay = [b.path[0] for l in dv.layers for b in l if b.kind == "bind" and len(b.path) == 1]
+                kk = rng.random()
+                try:
+                    if kk < 0.4:
+                        cli = ["set", "@" * rng.choice([1, 1, 2]) + rng.choice(lay + ["c_new" + str(rng.randrange(9))]), "5"]
+                        set_value(src, cli[1], cli[2])
+                    elif kk < 0.6 and lay:
+                        cli = ["rm", "@" * rng.choice([1, 1, 2]) + rng.choice(lay), ""]
+                        remove_value(src, cli[1])
+                    else:
+                        cli = ["set", "c_body" + str(rng.randrange(9)), "[ 1 2 ]"]
+                        set_value(src, cli[1], cli[2])
+                    B.bump(obs.setdefault("cli_edits_between_mapping_ops", {}), cli[0])
+                except Exception:  # noqa: BLE001 - refused edits leave the document as it was (C08's subject)
+                    cli.append("refused")
+                hist.append(("cli", (), cli[0], cli[1], cli[2]))
+                continue
             # ---- choose mapping target
             targets = ["document"]
             nested_paths = [p for p, nd in _sets(tree) if nd.explicit and not nd.via_attrpath and len(p) <= 2]
@@ -280,7 +302,11 @@ def run_shard(spec):
                         mapping = mapping[seg]
                     view = get_path(plain, base_path)
                 else:
-                    target_set = src._resolve_target_set()
+                    # (the top expression itself when it is the set: reaching the scope without the
+                    # document-level helpers, which re-attach owners on their way)
+                    top = src.expr
+                    target_set = top if type(top).__name__ == "AttributeSet" and rng.random() < 0.7 \
+                        else src._resolve_target_set()
                     mapping = target_set.scope
                     # which let layer does the scope mapping stand for? (the one with its names)
                     names = [getattr(b, "name", None) for b in list(mapping)]
